@@ -686,6 +686,12 @@ func hostileDocs(r *rand.Rand) []hostileInput {
 			}
 		}
 	}
+	// very many tiny tokens of one value or one run: work and memory must stay proportional
+	add("many-long-string-segments", []byte(strings.Repeat("'''a''' ", 60000)+" 1"))
+	add("many-long-string-segments", []byte("[ "+strings.Repeat("'''bc'''\n", 40000)+", {{ "+strings.Repeat("'''d''' ", 40000)+"}} ]"))
+	add("nop-run", bin(bytes.Repeat([]byte{0x00}, 9_000_000), []byte{0x21, 0x01}))
+	add("nop-run", bin([]byte{0xBE}, vu(9_000_002), bytes.Repeat([]byte{0x00}, 9_000_000), []byte{0x21, 0x01}, []byte{0x20}))
+	add("nop-run", bin(bytes.Repeat([]byte{0x01, 0xFF}, 1_000_000), []byte{0xC3, 0x00, 0x00, 0x20}))
 	// long chains of appending symbol tables (every table imports the one before it)
 	for _, n := range []int{50, 1500} {
 		var sb strings.Builder
@@ -838,6 +844,46 @@ func hostileDocs(r *rand.Rand) []hostileInput {
 	add("long-number", []byte("1."+strings.Repeat("3", 60000)+"d5"))
 	add("long-number", []byte("1."+strings.Repeat("3", 30000)+"e5"))
 	add("long-number", []byte(strings.Repeat("1_", 30000)+"1"))
+	// --- nesting deep enough that one stack frame per level would exceed the runtime's stack limit
+	// (a fatal error that cannot be recovered from): a few megabytes of input
+	for _, ch := range []string{"[", "(", "{a:", "a::[", "[(", "{a:[b::("} {
+		n := 7_000_000 / len(ch)
+		add("extreme-nesting", []byte(strings.Repeat(ch, n)))
+		add("extreme-nesting", []byte(strings.Repeat(ch, n)+"1"))
+	}
+	add("extreme-nesting", []byte(strings.Repeat("[", 4_000_000)+strings.Repeat("]", 4_000_000)+" 1"))
+	add("extreme-nesting", []byte("["+strings.Repeat("(", 3_000_000)+strings.Repeat(")", 3_000_000)+", 2] 3"))
+	for _, code := range []byte{0xB, 0xC, 0xD} {
+		// well-formed binary nesting: lengths computed from the inside out, headers emitted outside in
+		const levels = 1_500_000
+		totals := make([]uint64, levels)
+		hdrs := make([][]byte, levels)
+		inner := uint64(1) // the innermost value: 0x20
+		for k := 0; k < levels; k++ {
+			body := inner
+			var h []byte
+			if code == 0xD {
+				body++ // one field id byte in front of the child
+			}
+			if body < 14 {
+				h = []byte{code<<4 | byte(body)}
+			} else {
+				h = append([]byte{code<<4 | 0x0E}, vu(body)...)
+			}
+			if code == 0xD {
+				h = append(h, 0x84)
+			}
+			hdrs[k] = h
+			totals[k] = uint64(len(h)) + inner
+			inner = totals[k]
+		}
+		doc := append([]byte{}, refbin.IVM...)
+		for k := levels - 1; k >= 0; k-- {
+			doc = append(doc, hdrs[k]...)
+		}
+		doc = append(doc, 0x20)
+		add("extreme-nesting", doc)
+	}
 	// --- deep nesting ---
 	for _, depth := range []int{1000, 65000} {
 		for _, ch := range []string{"[", "(", "{a:", "a::[", "{{"} {
